@@ -772,14 +772,13 @@ fn kdoc(k: usize, f: impl Fn(&B)) {
 }
 //@ props: C06, C07
 //@ timeout: 1800
-//@ harness: c06_delpath_i, c06_delpath_ii, c06_delpath_iiy, c06_delpath_iix
-//@ desc: delete_by_keypath through arrays: {i} with i in {0,-1,2} on [n,null]; {i,j} with (i,j) in {(0,0),(0,-1),(1,0),(0,5)} on [[n,s]] (into the nested array, into a scalar, past the end) and {(0,0),(1,0)} on [[],s]: the addressed element is removed (negative indices from the end); paths that do not resolve or run into/past scalars leave the document unchanged
+//@ harness: c06_delpath_i, c06_delpath_iiy, c06_delpath_iix
+//@ desc: delete_by_keypath through arrays: {i} with i in {0,-1,2} on [n,null]; {i,j} with (i,j) in {(1,0),(0,5)} on [[n,s]] (past the array, past the nested array: unchanged) (into the nested array, into a scalar, past the end) and {(0,0),(1,0)} on [[],s]: the addressed element is removed (negative indices from the end); paths that do not resolve or run into/past scalars leave the document unchanged
 //@ fns: delete_by_keypath, delete_by_keypath_jsonb, delete_jsonb_array_by_keypath, ArrayBuilder::push_array, ArrayBuilder::build_into
 //@ bounds: paths <= 2 index elements, depth 2; representative indices
 //@ stubs: parse_value, from_slice -> panic | drop_in_place -> no-op | ObjectBuilder::build_into -> panic in array-only instances (proves the object arm of write_entry is not taken)
 //@ outside: key paths through objects (ObjectBuilder: not reached)
 harness!(c06_delpath_i, split1(3, |k| kdoc(0, |d| del_keypath_run(d, 0, [0, -1, 2][k], 0))));
-harness2!(c06_delpath_ii, split1(2, |k| kdoc(1, |d| del_keypath_run(d, 2, 0, [0, -1][k]))));
 harness2!(c06_delpath_iiy, split1(2, |k| kdoc(1, |d| del_keypath_run(d, 2, [1, 0][k], [0, 5][k]))));
 harness2!(c06_delpath_iix, split1(2, |k| kdoc(2, |d| del_keypath_run(d, 2, [0, 1][k], 0))));
 
@@ -805,9 +804,10 @@ fn c06_twin_must_fail() {
 // ---- not reached (kept for the record; not part of any check)
 //@ props: UNREACHED-C06
 //@ timeout: 1800
-//@ harness: c06u_delname_arr, c06u_delname_obj, c06u_objins, c06u_objdelpick, c06u_concat_obj, c06u_strip_nested, c06u_delpath_obj
+//@ harness: c06u_delpath_ii, c06u_delname_arr, c06u_delname_obj, c06u_objins, c06u_objdelpick, c06u_concat_obj, c06u_strip_nested, c06u_delpath_obj
 //@ desc: ObjectBuilder-based editors on the smallest object shapes: did not finish within 15 min each (BTreeMap<&str, Entry> with symbolic keys inside an enum-tagged builder tree)
 //@ fns: delete_by_name, object_insert, object_delete, object_pick, concat, strip_nulls, delete_by_keypath
+harness2!(c06u_delpath_ii, split1(2, |k| kdoc(1, |d| del_keypath_run(d, 2, 0, [0, -1][k]))));
 harness_obj!(c06u_delname_arr, with_buf(|b| del_name(&B::build(&arr(&[leaf(K_STR, 1), leaf(K_STR, 1), leaf(K_NUM, 2)])), 1, b)));
 harness_obj!(c06u_delname_obj, with_shape(3, D3[0], D3[1], |d| with_buf(|b| del_name(d, 1, b))));
 harness_obj!(c06u_objins, new_doc(0, |nw| with_shape(3, D3[0], D3[1], |d| with_buf(|b| obj_insert(d, nw, 1, b)))));
